@@ -5,6 +5,8 @@ cd /verif/harness
 export CARGO_NET_OFFLINE=true
 export RUSTFLAGS="${RUSTFLAGS:+$RUSTFLAGS }--cfg actix_net_verif"
 cargo build --release --offline -p vcheck
+# second build (no debug assertions, no overflow checks) used by the in-process checks C11-C17, C20
+cargo build --profile nodebug --offline -p vcheck
 # coverage-guided targets (cargo-fuzz, nightly, ASan); used by the thorough tier only
 cd /verif/fuzzproj
 env -u RUSTFLAGS cargo +nightly fuzz build || echo "warning: fuzz targets did not build; thorough tiers will report inconclusive" >&2
